@@ -312,8 +312,9 @@ class StringifyMapper(Mapper):
 
     def map_logical_not(self, expr, enclosing_prec, *args, **kwargs):
         return self.parenthesize_if_needed(
-                "not " + self.rec(expr.child, PREC_UNARY, *args, **kwargs),
-                enclosing_prec, PREC_UNARY)
+                # 'not' binds weaker than comparisons, tighter than 'and'
+                "not " + self.rec(expr.child, PREC_LOGICAL_AND+1, *args, **kwargs),
+                enclosing_prec, PREC_LOGICAL_AND)
 
     def map_logical_or(self, expr, enclosing_prec, *args, **kwargs):
         return self.parenthesize_if_needed(
